@@ -341,7 +341,8 @@ class SchemaGen:
         for f in ot["fields"]:
             if r.random() < 0.85:
                 kvs.append([f["name"], self.value_for(f["type"], depth + 1, adv)])
-        style = r.choice(["key", "attr", "class"]) if t["kind"] != "object" else r.choice(["key", "class", "plain"])
+        style = r.choice(["key", "attr", "class"]) if t["kind"] != "object" else r.choice(["key", "class", "plain", "falsy"])
+        if style == "falsy": return {"o": "FalsyRow", "a": kvs}
         if style == "key": return {"d": [["_typename", on]] + kvs}
         if style == "attr": return {"o": "Row", "a": [["_typename", on]] + kvs}
         if style == "class": return {"o": on, "a": kvs}
